@@ -85,6 +85,9 @@ pub enum Spec {
   Cached(Box<Spec>),
   /// an extra `.boxed()` layer (`Arc<Arc<dyn Source>>`)
   Boxed(Box<Spec>),
+  /// a user-defined source (harness type) without map, built on the public
+  /// default streaming helper, with schedule points of its own (C18)
+  Custom { text: String },
 }
 
 impl Spec {
@@ -158,7 +161,7 @@ impl Spec {
 pub fn model_text(s: &Spec) -> String {
   match s {
     Spec::Raw(t) | Spec::RawStr(t) => t.clone(),
-    Spec::Orig { text, .. } | Spec::Sms { text, .. } | Spec::SmsInner { text, .. } => {
+    Spec::Orig { text, .. } | Spec::Sms { text, .. } | Spec::SmsInner { text, .. } | Spec::Custom { text } => {
       text.clone()
     }
     Spec::RawBytes(b) | Spec::RawBuf(b) => String::from_utf8_lossy(b).to_string(),
